@@ -67,6 +67,7 @@ pub struct RunCfg {
     /// Clients 0..good_clients obey the protocol; the rest are rogues (if `rogue`).
     pub good_clients: usize,
     pub shadow_events: bool,
+    pub alternate_clean: bool,
 }
 
 const TOPICS: &[&str] = &["a/b", "a/c", "a/b/c", "d", "x/y/z", "$SYS/x", "\u{e9}t\u{e9}/b", "a/\u{4e16}"];
@@ -161,6 +162,7 @@ impl RunCfg {
             will_once: false,
             good_clients: n_clients,
             shadow_events: false,
+            alternate_clean: false,
         };
         if cfg.qos_mix.iter().all(|w| *w == 0) {
             cfg.qos_mix[1] = 1;
@@ -185,6 +187,27 @@ impl RunCfg {
                 cfg.w_pub = ch.range(4, 10);
                 cfg.w_burst = ch.range(1, 4);
                 cfg.big_burst = ch.coin(1, 3);
+                if cfg.sub_qos_mix[1] + cfg.sub_qos_mix[2] == 0 {
+                    cfg.sub_qos_mix[1] = 2;
+                }
+            }
+            P::C08 => {
+                let pool = ["a/+", "d", "x/#", "a/b/c"];
+                let k = ch.range(1, 3) as usize;
+                let start = ch.pick(4) as usize;
+                cfg.filters = (0..k).map(|i| pool[(start + i) % 4]).collect();
+                cfg.topics = vec!["a/b", "d", "x/y/z", "a/b/c", "a/c"];
+                cfg.topics.truncate(ch.range(2, 5) as usize);
+                cfg.n_clients = ch.range(2, 4) as usize;
+                cfg.max_steps = *ch.choose(&[30u32, 60, 100, 150]);
+                cfg.persistent = true;
+                cfg.alternate_clean = ch.coin(1, 3);
+                cfg.resub = false;
+                cfg.w_unsub = ch.pick(2);
+                cfg.w_drop = 0;
+                cfg.w_disc_pkt = 0;
+                cfg.big_burst = false;
+                cfg.mid_quiesce = false;
                 if cfg.sub_qos_mix[1] + cfg.sub_qos_mix[2] == 0 {
                     cfg.sub_qos_mix[1] = 2;
                 }
@@ -338,6 +361,19 @@ struct Link {
     /// not covered by any statement).
     poisoned: bool,
     qos2_unreleased: u32,
+    /// Every forward seen on this link, in push order (incl. those the model
+    /// read out of the buffer when the connection was closed).
+    fw_log: Vec<FwRec>,
+    /// Number of forwards that were attributed virtually at close time and
+    /// must not be attributed again when the link really drains them.
+    clean: bool,
+}
+
+#[derive(Clone, Debug)]
+struct FwRec {
+    qos: u8,
+    retained: bool,
+    at: Option<(usize, usize)>,
 }
 
 pub struct World {
@@ -361,6 +397,7 @@ pub struct World {
     forwards_total: u32,
     link_wills: Vec<(usize, Option<Will>)>,
     abandoned: Vec<usize>,
+    last_attr: Option<(usize, usize)>,
     meter_rx: Vec<flume::Receiver<Vec<rumqttd::Meter>>>,
     alert_rx: Vec<flume::Receiver<Vec<rumqttd::Alert>>>,
 }
@@ -645,6 +682,9 @@ impl World {
     // ----- link-side primitives ------------------------------------------
 
     fn connect(&mut self, c: usize) {
+        if self.cfg.alternate_clean && c == 0 {
+            self.clients[c].clean = self.ch.coin(1, 5);
+        }
         let clean = self.clients[c].clean;
         let id = self.clients[c].id.clone();
         let mut b = LinkBuilder::new(&id, self.router_tx.clone()).clean_session(clean);
@@ -697,6 +737,8 @@ impl World {
             stale_budget: 3,
             poisoned: false,
             qos2_unreleased: 0,
+            fw_log: Vec::new(),
+            clean,
         });
         self.evq.push_back((l, hook::EV_CONNECT));
         if let Some(old) = self.clients[c].link {
@@ -1010,7 +1052,20 @@ impl World {
         if self.done() || rogue {
             return;
         }
+        if let Some(conn) = self.links[l].conn {
+            if !self.spec.conns[conn].alive {
+                // judged (and logged) when the model closed the connection
+                return;
+            }
+        }
+        self.last_attr = None;
         self.attribute(l, &topic, &f.publish.payload, qos, f.publish.retain, &f);
+        let at = self.last_attr.take();
+        self.links[l].fw_log.push(FwRec {
+            qos,
+            retained: f.publish.retain,
+            at,
+        });
     }
 
     /// C01 / C15 / C17: attribute a forward to a subscription of this
@@ -1154,6 +1209,11 @@ impl World {
                 self.rep.probe("attribution_overflow");
             }
             let all_tainted = next.iter().all(|v| v.tainted);
+            if vecs.len() == 1 && next.len() == 1 {
+                if let Some(si) = (0..n).find(|si| next[0].pos[*si] != vecs[0].pos[*si]) {
+                    self.last_attr = Some((si, next[0].pos[si] - 1));
+                }
+            }
             spec.conns[conn].posvecs = next;
             if all_tainted {
                 let si = wrong_qos.unwrap_or(0);
@@ -1173,6 +1233,7 @@ impl World {
         let mut dup = false;
         let mut after_unsub = false;
         let mut after_unsub_same_batch = false;
+        let mut after_unsub_restored = false;
         let mut matches_any = false;
         for si in 0..n {
             if !eligible(spec, si) {
@@ -1194,6 +1255,7 @@ impl World {
             if s.end.is_some() && (limit..total).any(|j| is(spec, si, j)) {
                 after_unsub = true;
                 after_unsub_same_batch |= s.unsub_after_same_batch_match;
+                after_unsub_restored |= s.restored;
             }
         }
         if let Some((si, _j)) = gap {
@@ -1253,7 +1315,9 @@ impl World {
             );
         } else if after_unsub {
             self.c01_viol(
-                if after_unsub_same_batch {
+                if after_unsub_restored {
+                    "delivery_after_unsubscribe:subscription_restored_from_session"
+                } else if after_unsub_same_batch {
                     "delivery_after_unsubscribe:publish_then_unsubscribe_in_one_batch"
                 } else {
                     "delivery_after_unsubscribe"
@@ -1275,6 +1339,145 @@ impl World {
                 "delivery_not_expected",
                 format!("c{c} received {topic}/{p}, accepted before its matching subscription took effect or not next in order"),
             );
+        }
+    }
+
+    /// The model has just closed connection `k` (the broker is doing the same
+    /// right now). Forwards still sitting in its outgoing buffer are judged
+    /// here; for a persistent session the resume positions are computed the
+    /// way the statement of C08 says: the oldest QoS>0 forward of each
+    /// subscription that the broker has no acknowledgement for.
+    fn after_model_close(&mut self, k: usize) {
+        let l = self.spec.conns[k].link;
+        let c = self.links[l].client;
+        if self.clients[c].rogue {
+            return;
+        }
+        let pending: Vec<Notification> = {
+            let link = &self.links[l];
+            match link.rx.as_ref().or(link.dead_rx.as_ref()) {
+                Some(rx) => rx.verif_peek(),
+                None => Vec::new(),
+            }
+        };
+        for n in pending {
+            if self.done() {
+                return;
+            }
+            if let Notification::Forward(f) = n {
+                let (_d, q, _p) = f.publish.verif_meta();
+                let qos = qos_num(q);
+                let topic = String::from_utf8_lossy(&f.publish.topic).to_string();
+                self.rep.probe("forward_judged_at_close");
+                self.last_attr = None;
+                self.attribute(l, &topic, &f.publish.payload, qos, f.publish.retain, &f);
+                let at = self.last_attr.take();
+                self.links[l].fw_log.push(FwRec {
+                    qos,
+                    retained: f.publish.retain,
+                    at,
+                });
+            }
+        }
+        if self.spec.conns[k].clean {
+            return;
+        }
+        // persistent session: positions after everything the broker had pushed
+        // (QoS 0 forwards left in the dead buffer are legitimately lost) ...
+        let client_id = self.spec.conns[k].client_id.clone();
+        if self.spec.conns[k].posvecs.len() == 1 && !self.spec.conns[k].unchecked {
+            for si in 0..self.spec.conns[k].session.subs.len() {
+                let s = &self.spec.conns[k].session.subs[si];
+                if s.end.is_some() || s.gone {
+                    continue;
+                }
+                let (path, pos) = (s.path.clone(), self.spec.conns[k].posvecs[0].pos[si]);
+                self.spec.set_resume_position(&client_id, &path, pos);
+            }
+        } else if let Some(sess) = self.spec.saved.get_mut(&client_id) {
+            sess.uncertain = true;
+        } else if let Some(nk) = self.spec.by_client.get(&client_id).copied() {
+            self.spec.conns[nk].unchecked = true;
+        }
+        // ... then rewound to the oldest forward the broker has no ack for
+        let acked = self.spec.conns[k].acks_accepted as usize;
+        let qos_fw: Vec<FwRec> = self.links[l].fw_log.iter().filter(|r| r.qos > 0).cloned().collect();
+        let unacked = if acked <= qos_fw.len() { &qos_fw[acked..] } else { &qos_fw[qos_fw.len()..] };
+        if !unacked.is_empty() {
+            self.rep.probe("session_saved_with_unacked_forwards");
+        }
+        let mut done_subs: Vec<usize> = Vec::new();
+        for r in unacked {
+            match r.at {
+                Some((si, _)) if self.spec.conns[k].session.subs[si].end.is_some() => {
+                    // an unacknowledged forward of a subscription that was
+                    // unsubscribed meanwhile: MQTT wants it redelivered, the
+                    // statement speaks of subscriptions in force - not judged
+                    if let Some(sess) = self.spec.saved.get_mut(&client_id) {
+                        sess.uncertain = true;
+                    } else if let Some(nk) = self.spec.by_client.get(&client_id).copied() {
+                        self.spec.conns[nk].unchecked = true;
+                    }
+                    self.rep.probe("resume_with_unacked_forward_of_ended_subscription");
+                    return;
+                }
+                Some((si, j)) => {
+                    if !done_subs.contains(&si) {
+                        done_subs.push(si);
+                        let path = self.spec.conns[k].session.subs[si].path.clone();
+                        tr!(self.rep, "model: session of c{c}: {path} resumes at position {j}");
+                        self.spec.set_resume_position(&client_id, &path, j);
+                    }
+                }
+                None if r.retained => {}
+                None => {
+                    // attribution was ambiguous: do not judge the resumed session
+                    if let Some(sess) = self.spec.saved.get_mut(&client_id) {
+                        sess.uncertain = true;
+                    } else if let Some(nk) = self.spec.by_client.get(&client_id).copied() {
+                        self.spec.conns[nk].unchecked = true;
+                    }
+                    self.rep.probe("resume_position_uncertain");
+                    return;
+                }
+            }
+        }
+    }
+
+    /// C08 crash point: end the persistent subscriber's (client 0) current
+    /// connection now, in one of four ways.
+    fn kill_subscriber(&mut self, way: u8) {
+        let c = 0usize;
+        let Some(l) = self.clients[c].link else {
+            self.rep.probe("crash_point_without_connection");
+            return;
+        };
+        if self.links[l].state != LState::Up || !self.can_send() {
+            self.rep.probe("crash_point_without_connection");
+            return;
+        }
+        tr!(self.rep, "== crash point: end connection of c{c} (link {l}) way {way}");
+        match way {
+            0 => {
+                self.rep.fault("end_by_disconnect_packet");
+                self.perform(Act::DiscPkt(l));
+            }
+            1 => {
+                self.rep.fault("end_by_link_failure");
+                self.end_link(l, false);
+            }
+            2 => {
+                self.rep.fault("end_by_protocol_error");
+                self.links[l].poisoned = true;
+                self.push_quiet(l, SimPkt::BadAck(0, 65535));
+                self.notify(l);
+            }
+            _ => {
+                self.rep.fault("end_by_takeover");
+                if self.clients[c].connects < 6 {
+                    self.connect(c);
+                }
+            }
         }
     }
 
@@ -1577,7 +1780,7 @@ impl World {
                         i.and_then(|i| self.link_wills.swap_remove(i).1)
                     };
                     let cid = self.clients[c].id.clone();
-                    let clean = self.clients[c].clean;
+                    let clean = self.links[l].clean;
                     match self.spec.connect(l, &cid, clean, will) {
                         ConnectResult::Accepted {
                             conn,
@@ -1590,9 +1793,10 @@ impl World {
                                 self.rep,
                                 "router: connect c{c} link={l} -> slot {slot} session_present={session_present} took_over={took_over:?}"
                             );
-                            if took_over.is_some() {
+                            if let Some(old) = took_over {
                                 self.rep.probe("takeover");
                                 self.rep.fault("takeover");
+                                self.after_model_close(old);
                             }
                         }
                         ConnectResult::Refused(r) => {
@@ -1609,6 +1813,7 @@ impl World {
                         let stale = self.spec.conns[conn].link != l;
                         tr!(self.rep, "router: disconnect slot {id} (link {l}, stale={stale})");
                         self.spec.close(conn, if stale { "stale_disconnect_event" } else { "link_disconnect_event" });
+                        self.after_model_close(conn);
                         if stale {
                             self.rep.probe("stale_disconnect_on_reused_slot");
                             self.rep.fault("stale_disconnect");
@@ -1685,6 +1890,7 @@ impl World {
                 for e in effects {
                     let Effect::Close(k, why) = e;
                     tr!(self.rep, "model: connection {k} closed ({why})");
+                    self.after_model_close(k);
                 }
             } else if is_occupant {
                 self.divergence(format!(
@@ -2542,29 +2748,6 @@ impl World {
                 .find(|(f, _, _)| f == filter)
                 .map(|(_, head, _)| *head)
         };
-        if complete && self.prop == P::C17 {
-            // what the router pushed to members whose link had already ended
-            // counts as forwarded (the statement says forwarded, not received)
-            for l in 0..self.links.len() {
-                if self.links[l].state != LState::Ended {
-                    continue;
-                }
-                let left = match self.links[l].dead_rx.as_ref() {
-                    Some(rx) => rx.verif_leftover(),
-                    None => continue,
-                };
-                for n in left {
-                    if let Notification::Forward(f) = n {
-                        let (_d, q, _p) = f.publish.verif_meta();
-                        let topic = String::from_utf8_lossy(&f.publish.topic).to_string();
-                        if !f.publish.retain {
-                            self.rep.probe("forward_left_in_dead_buffer");
-                            self.attribute(l, &topic, &f.publish.payload, qos_num(q), false, &f);
-                        }
-                    }
-                }
-            }
-        }
         // obligations of the possible assignments: the skipped elements must
         // have been discarded by the broker's log
         for conn in 0..self.spec.conns.len() {
@@ -2990,7 +3173,85 @@ fn probe_client(router: &mut Router, world: &Rc<RefCell<World>>) {
     }
 }
 
-pub fn run(prop: P, _tier: Tier, ch: &mut Choices, rep: &mut RunReport) -> Outcome {
+pub fn run(prop: P, tier: Tier, ch: &mut Choices, rep: &mut RunReport) -> Outcome {
+    if prop == P::C08 {
+        return run_c08(tier, ch, rep);
+    }
+    run_single(prop, tier, ch, rep, None)
+}
+
+/// C08 (fault enumeration): one seeded history, re-executed once for every
+/// step index at which the persistent subscriber's connection is ended and
+/// for each of the four ways of ending it. A replayed or shrunk log selects a
+/// single crash point instead (first three choices: 1, step, way).
+fn run_c08(tier: Tier, ch: &mut Choices, rep: &mut RunReport) -> Outcome {
+    let mode = ch.pick_forced(2, 0);
+    if mode == 1 {
+        let k = ch.pick(401);
+        let w = ch.pick(4) as u8;
+        return run_single(P::C08, tier, ch, rep, Some((k, w)));
+    }
+    let mut base = ch.clone();
+    base.log.clear();
+    let n = {
+        let mut scratch = base.clone();
+        RunCfg::draw(P::C08, &mut scratch).max_steps
+    };
+    let mut any_nontrivial = false;
+    let mut first = true;
+    for k in 0..n {
+        for w in 0..4u8 {
+            let mut sub = base.clone();
+            let mut subrep = RunReport::new(first && rep.lines.is_some());
+            let out = run_single(P::C08, tier, &mut sub, &mut subrep, Some((k, w)));
+            crate::core::fnv(&mut rep.hash, &subrep.hash.to_le_bytes());
+            rep.steps += subrep.steps;
+            rep.crash_points += 1;
+            any_nontrivial |= subrep.nontrivial;
+            for (key, v) in subrep.faults.iter() {
+                *rep.faults.entry(key).or_insert(0) += v;
+            }
+            for (key, v) in subrep.probes.iter() {
+                *rep.probes.entry(key).or_insert(0) += v;
+            }
+            rep.states.extend(subrep.states.iter().copied());
+            if first {
+                rep.config = subrep.config.clone();
+                if let (Some(dst), Some(src)) = (rep.lines.as_mut(), subrep.lines.take()) {
+                    dst.push(format!("== crash point step={k} way={w} (first of {} x 4)", n));
+                    dst.extend(src);
+                }
+                first = false;
+            }
+            match out {
+                Outcome::Ok => {}
+                Outcome::Foreign(f) => {
+                    let mut log = vec![1u32, k, w as u32];
+                    log.extend(sub.log.iter().copied());
+                    ch.log = log;
+                    return Outcome::Foreign(f);
+                }
+                Outcome::Violation(v) => {
+                    // the log that replays exactly this crash point
+                    let mut log = vec![1u32, k, w as u32];
+                    log.extend(sub.log.iter().copied());
+                    ch.log = log;
+                    return Outcome::Violation(v);
+                }
+            }
+        }
+    }
+    rep.nontrivial = any_nontrivial;
+    Outcome::Ok
+}
+
+fn run_single(
+    prop: P,
+    _tier: Tier,
+    ch: &mut Choices,
+    rep: &mut RunReport,
+    kill: Option<(u32, u8)>,
+) -> Outcome {
     let cfg = RunCfg::draw(prop, ch);
     let config = RouterConfig {
         max_connections: cfg.max_connections,
@@ -3031,6 +3292,7 @@ pub fn run(prop: P, _tier: Tier, ch: &mut Choices, rep: &mut RunReport) -> Outco
         forwards_total: 0,
         link_wills: Vec::new(),
         abandoned: Vec::new(),
+        last_attr: None,
         meter_rx: Vec::new(),
         alert_rx: Vec::new(),
     };
@@ -3044,7 +3306,11 @@ pub fn run(prop: P, _tier: Tier, ch: &mut Choices, rep: &mut RunReport) -> Outco
             4 => Pace::Withhold,
             _ => Pace::Eager,
         };
-        let clean = !(cfg.persistent && world.ch.coin(1, 2));
+        let clean = if prop == P::C08 {
+            c != 0
+        } else {
+            !(cfg.persistent && world.ch.coin(1, 2))
+        };
         let has_will = cfg.wills && world.ch.coin(1, 2);
         let rogue = cfg.rogue && c >= cfg.good_clients;
         let stalled = rogue && world.ch.coin(1, 4);
@@ -3093,9 +3359,14 @@ pub fn run(prop: P, _tier: Tier, ch: &mut Choices, rep: &mut RunReport) -> Outco
     let max_steps = cfg.max_steps;
     let mut alive = true;
     let mut quiesce_points = 0;
-    for _step in 0..max_steps {
+    for step in 0..max_steps {
         if world.borrow().done() {
             break;
+        }
+        if let Some((k, way)) = kill {
+            if k == step {
+                world.borrow_mut().kill_subscriber(way);
+            }
         }
         let pick_router = {
             let mut w = world.borrow_mut();
